@@ -302,6 +302,10 @@ func checkC15inner(c CaseC15, info *Info) *Failure {
 		}
 		info.NonTrivial(!c.Pristine)
 	case "json":
+		// accept/reject and value must be those of encoding/json on the first value (the C06 differential)
+		if f := checkC06(CaseC06{Clause: "diff", Input: b}, &Info{}); f != nil {
+			return f
+		}
 		m, err := mxj.NewMapJson(b)
 		if err == nil {
 			useMap(m)
